@@ -3,6 +3,9 @@ import hashlib
 import json
 import math
 import struct
+import sys
+
+sys.setrecursionlimit(200000)
 
 
 class Violation(Exception):
